@@ -75,7 +75,7 @@ Section AxisChildren.
     destruct (phi_spec (j + p + 1) ltac:(lia)) as [Hq1 Hq2].
     assert (Hi : i < ax_numdofs a') by lia.
     split; [exact Hi|].
-    rewrite (ms_nth a j Hj). rewrite (ms_nth a' i Hi). simpl. rewrite Ep. fold p.
+    rewrite (ms_nth a j Hj). rewrite (ms_nth a' i Hi). cbn [fst snd]. change (ax_p a') with p. change (ax_p a) with p.
     split.
     - rewrite <- Hp2. apply (K_mono a'); lia.
     - rewrite <- Hq2. apply (K_mono a'); lia.
